@@ -71,25 +71,10 @@ theorem readToEnd_spec (bl : Nat → Nat) (v : View)
 
 theorem utf8SeqLen_le (bs : VBytes) : utf8SeqLen bs ≤ bs.length := by
   unfold utf8SeqLen
-  split
-  · simp
-  · rename_i b0 r
-    simp only [List.length_cons]
-    split
-    · omega
-    · split
-      · split
-        · split <;> omega
-        · omega
-      · split
-        · split
-          · simp only [List.length_cons]; split <;> omega
-          · omega
-        · split
-          · split
-            · simp only [List.length_cons]; split <;> omega
-            · omega
-          · omega
+  repeat' split
+  all_goals (simp only [List.length_cons, List.length_nil])
+  all_goals (try split)
+  all_goals omega
 
 theorem utf8ValidUpToAux_le (f : Nat) (bs : VBytes) (n : Nat) :
     utf8ValidUpToAux f bs n ≤ n + bs.length := by
